@@ -319,7 +319,8 @@ Definition sending_file_data_fsm (pkt : option pdu) : SM bool :=
     (if q_empty_file q then
        setq (fun q => q <| q_cond_eof := Some C_NO_ERROR |>) ;;; sset_step SS_SENDING_EOF
      else if q_md_only q then
-       (if q_closure q then sset_step SS_WAITING_FOR_FINISHED else sset_step SS_NOTICE_OF_COMPLETION)
+       (* F11 repair: in acknowledged mode the receiver's Finished PDU is awaited and acknowledged *)
+       (if q_closure q || ac then sset_step SS_WAITING_FOR_FINISHED else sset_step SS_NOTICE_OF_COMPLETION)
      else ret tt) ;;;
     ret false.
 
